@@ -301,9 +301,11 @@ class TraitSet(set):
             The other iterables.
         """
 
-        old_set = self.copy()
-        super().difference_update(*args)
-        removed = old_set.difference(self)
+        # Work out what goes before touching the set: the built-in applies
+        # its arguments one at a time, so a later bad argument would leave
+        # the set changed without any notification.
+        removed = self.intersection(set().union(*args))
+        super().difference_update(removed)
 
         if len(removed) > 0:
             self.notify(removed, set())
